@@ -812,10 +812,27 @@ def c13_reference_multiplex(ck):
         t0 = time.time()
         while not os.path.exists(path) and time.time() - t0 < 10:
             time.sleep(0.02)
-        for variant in ("garbage after a valid request", "leaves without reading", "two neighbours"):
-            b = conn()
-            a = conn()
-            if variant == "garbage after a valid request":
+        for variant in ("garbage after a valid request", "leaves without reading", "two neighbours", "two neighbours hang up in the same instant"):
+            try:
+                b = conn()
+                a = conn()
+                if variant == "two neighbours hang up in the same instant":
+                    a2 = conn()
+            except OSError as e:
+                ck.case("pingmux13|" + variant)
+                ck.failures.append({"what": "examples/ping in multiplex mode is gone (it no longer accepts connections) after its neighbours' traffic",
+                                    "before_variant": variant, "server_exit": srv.poll(), "error": repr(e)})
+                break
+            if variant == "two neighbours hang up in the same instant":
+                # connected before b's turn, both answered once, then both closed back to back: the server drops two
+                # connections in one poll cycle
+                for x_ in (a, a2):
+                    x_.sendall(ping("N-token"))
+                    read_quiet(x_, 0.2)
+                a.close()
+                a2.close()
+                time.sleep(0.3)
+            elif variant == "garbage after a valid request":
                 a.sendall(ping("A-secret-token") + b"this is not json\0")
                 read_quiet(a, 0.3)
             elif variant == "leaves without reading":
@@ -825,18 +842,22 @@ def c13_reference_multiplex(ck):
             else:
                 a2 = conn()
                 a.sendall(ping("A-secret-token") + b"{\0")
-                time.sleep(0.2)      # one dropped connection per poll cycle (see the note on closing below)
+                time.sleep(0.2)
                 a2.sendall(b"\0\0" + ping("A2-token"))
                 read_quiet(a2, 0.3)
                 a2.close()
                 time.sleep(0.2)
-            b.sendall(ping("B-token"))
-            gotb = read_quiet(b)
-            c = conn()
-            c.sendall(ping("C-token"))
-            gotc = read_quiet(c)
-            # connections are closed one at a time: the example's bookkeeping removes several closed connections of one
-            # poll cycle by stale indices (an example-only defect outside the property's anchors, noted in DESIGN.md)
+            try:
+                b.sendall(ping("B-token"))
+                gotb = read_quiet(b)
+                c = conn()
+                c.sendall(ping("C-token"))
+                gotc = read_quiet(c)
+            except OSError as e:
+                ck.case("pingmux13|" + variant)
+                ck.failures.append({"what": "examples/ping in multiplex mode: a connection that only sent its own request was dropped (or the server died) "
+                                            "because of what its neighbours did", "neighbour": variant, "server_exit": srv.poll(), "error": repr(e)})
+                break
             for x in (a, b, c):
                 try:
                     x.close()
